@@ -564,6 +564,70 @@ fn alpha_by_tag(tag: &str) -> Vec<Req> {
   }
 }
 
+/// `LunarYear::get_leap_month` scans a HashMap, whose iteration order differs from process to process (per-process random
+/// hash seed: a source of nondeterminism no scheduler controls). The answer is independent of that order iff no year
+/// occurs in two of the twelve lists; checked on the decoded table itself (hook), together with answer = the unique list.
+fn leap_table_order_independent(ctx: &Ctx) {
+  let lists = tyme4rs::tyme::lunar::verif_leap_lists();
+  let mut owner: std::collections::HashMap<isize, usize> = std::collections::HashMap::new();
+  let mut l = Local::default();
+  if lists.len() != 12 || lists.iter().enumerate().any(|(i, (k, _))| *k != i + 1) {
+    ctx.violation("leap_table", "keys".into(), format!("the leap table has keys {:?} (model: 1..=12)", lists.iter().map(|x| x.0).collect::<Vec<_>>()), vec!["leaptable".into()]);
+  }
+  for (m, ys) in &lists {
+    for y in ys {
+      l.transitions += 1;
+      if let Some(prev) = owner.insert(*y, *m) {
+        ctx.violation("leap_table", format!("{:04}", y), format!("lunar year {} is listed under leap month {} and under leap month {}: get_leap_month depends on the HashMap iteration order, which differs between processes", y, prev, m), vec!["leaptable".into()]);
+      }
+    }
+  }
+  for y in 0..=9999isize {
+    l.states += 1;
+    let want = owner.get(&y).cloned().unwrap_or(0);
+    let got = guard(|| LunarYear::from_year(y).get_leap_month());
+    if got != Ok(want) {
+      ctx.violation("leap_table", format!("{:04}", y), format!("get_leap_month({}) = {:?}, the table lists it under {}", y, got, want), vec!["leaptable".into()]);
+    }
+  }
+  ctx.add(&l);
+  ctx.subspace("leap-month table (decoded, via hook): no year in two lists (answer independent of HashMap iteration order, the only per-process nondeterminism), get_leap_month of every year 0..9999 = its list", true, 10000);
+}
+
+/// one long history: every lunar month of 0..9999 is requested once (123,684 distinct keys, far beyond any plausible
+/// capacity bound of the memo), then every month is requested again and must equal the cache-free constructor
+fn long_history(ctx: &Ctx) {
+  reset();
+  let mut keys: Vec<(isize, isize)> = Vec::new();
+  for y in 0..=9999isize {
+    let lp = LunarYear::from_year(y).get_leap_month() as isize;
+    for m in 1..=12isize {
+      keys.push((y, m));
+      if m == lp {
+        keys.push((y, -m));
+      }
+    }
+  }
+  let mut l = Local::default();
+  for pass in 0..2 {
+    for &(y, m) in &keys {
+      l.transitions += 1;
+      let got = guard(|| fmt_month(&LunarMonth::from_ym(y, m)));
+      if pass == 1 {
+        let want = guard(|| fmt_month(&LunarMonth::new(y, m).unwrap()));
+        if got != want {
+          ctx.violation("long_history", format!("{:04}-{}", y, m), format!("after {} distinct month requests, from_ym({}, {}) = {:?}; cache-free constructor = {:?}", keys.len(), y, m, got, want), vec!["longhistory".into()]);
+        }
+      }
+    }
+  }
+  l.states = keys.len() as u64;
+  l.traces += 1;
+  ctx.add(&l);
+  ctx.subspace(&format!("long history: all {} lunar months of 0..9999 requested, then requested again: every repeated answer = cache-free constructor", keys.len()), true, keys.len() as u64);
+  reset();
+}
+
 pub fn run(ctx: &Ctx) {
   ctx.assume("state = canonical (sorted memo snapshot, poison flags) read through the cfg(tyme4rs_verif) hooks; each state is rebuilt by replaying its shortest history on the real code after verif_reset(); oracle = cold answer and the cache-free LunarMonth::new");
   ctx.assume("the three process-wide locks and the two per-value RefCell memos are the only mutable state (no unsafe, no I/O, no clock) -- established by reading the source");
@@ -587,6 +651,8 @@ pub fn run(ctx: &Ctx) {
   ctx.add(&l);
   value_level(ctx);
   generic_histories(ctx);
+  leap_table_order_independent(ctx);
+  long_history(ctx);
   ctx.sample(format!("history [from_ym(1,12) ; from_ym(11,2)] -> '{}'", {
     reset();
     let _ = answer(Kind::Month(1, 12));
@@ -639,6 +705,8 @@ pub fn replay(ctx: &Ctx, args: &[String]) {
         ctx.violation("generic_history", format!("{:?}/obs{} after {}", g[di], ob, if pd >= 0 { format!("{:?}/obs{}", g[pd as usize], po) } else { "-".into() }), format!("answered '{}' after the earlier request, '{}' in a fresh process", got, cold), vec![]);
       }
     }
+    "leaptable" => leap_table_order_independent(ctx),
+    "longhistory" => long_history(ctx),
     _ => value_level(ctx),
   }
 }
